@@ -907,9 +907,9 @@ class IntronPathProcessor:
         possible_polyas = self.intron_graph.get_outgoing(intron, VERTEX_polya)
         if trusted:
             # find closes polyA
-            for v in possible_polyas:
-                if abs(v[1] - end) <= self.params.apa_delta:
-                    return v
+            close_polyas = [v for v in possible_polyas if abs(v[1] - end) <= self.params.apa_delta]
+            if close_polyas:
+                return min(close_polyas, key=lambda v: (abs(v[1] - end), -v[1]))
 
         outgoing_introns = self.intron_graph.get_outgoing(intron)
         if len(outgoing_introns) > 0:
@@ -939,9 +939,9 @@ class IntronPathProcessor:
         possible_polyas = self.intron_graph.get_incoming(intron, VERTEX_polyt)
         if trusted:
             # find closes polyT
-            for v in possible_polyas:
-                if abs(v[1] - start) <= self.params.apa_delta:
-                    return v
+            close_polyts = [v for v in possible_polyas if abs(v[1] - start) <= self.params.apa_delta]
+            if close_polyts:
+                return min(close_polyts, key=lambda v: (abs(v[1] - start), v[1]))
 
         incoming_introns = self.intron_graph.get_incoming(intron)
         if len(incoming_introns) > 0:
